@@ -48,6 +48,19 @@ PLANS = {
         "min_evaluations": {"quick": 2000, "thorough": 20000},
         "assumptions": COMMON_ASSUMPTIONS + ["liveness restated as safety of a closed finite system: an accepted event undelivered at exact quiescence can never be delivered"],
     },
+    "C16": plan("workload `cycles`: one evaluation = one sequential history of 1-60 (thorough: 1-400) fill/drain cycles on one channel (7 rejecting kinds, every entry point, random polls / releases / length "
+                "queries mixed in), every answer compared with an exact reference model (accept iff occupancy < BUFFER_SIZE, rejected send leaves pending_items_count and deliveries unchanged, "
+                "exactly BUFFER_SIZE accepted on the emptied channel); workload `retry`: one evaluation = 2-4 producers retrying rejected sends against one consumer (SER: conductor stall verdict "
+                "for a send that neither succeeds nor returns; FREE: 16 cores), followed by a capacity probe of the emptied channel; non-trivial = at least one send was rejected in the run",
+                [dict(flavor="fast", lane="free", secs=8, args=["--set", "workload=cycles"]), ser(12), free(8, shards=8), dict(flavor="checked", lane="free", secs=5, shards=4, args=["--set", "workload=cycles"])],
+                [dict(flavor="fast", lane="free", secs=120, args=["--set", "workload=cycles"]), ser(150), free(100), dict(flavor="checked", lane="free", secs=60, args=["--set", "workload=cycles"]), ser(60, flavor="checked")],
+                2000, 20000, ["excluded by the property: Arc-based Multi kinds and the setter-based sends of the crossbeam Uni channel past their fullness test (they wait by documented design)"]),
+    "C20": plan("one evaluation = one serialized execution in which 1-2 send_with_async calls are kept suspended (setter future Pending behind a harness gate) until every other thread finished its script "
+                "and every consumer received everything the others got accepted; other threads: 0-2 producers (send, send_with, send_with_async, reserve+try_send_reserved), a length-query thread, polling "
+                "consumers, plus operations of the suspended thread itself; 10 channel kinds (all that implement send_with_async); verdict = conductor stall detection (every runnable thread has "
+                "spun >= 600 times in a retry loop / performed >= 600 unproductive attempts) + delivery of everything accepted; non-trivial = a setter was really suspended",
+                [ser(25)], [ser(240), ser(80, flavor="checked")], 500, 5000,
+                ["'for however long' is restated as: suspended until everybody else has finished (a finite run cannot observe more)", "stall threshold K=600 consecutive unproductive steps per thread"]),
 }
 
 LEVEL_NOTE = ("trusted base: the harness (conductor/chaos scheduler, recorder, checkers), the placement of the hook sites, x86-64/TSO for the free-running lane, "
@@ -75,4 +88,10 @@ META = {
         "design_ref": "DESIGN.md section 2, C04",
         "level_note": LEVEL_NOTE,
     },
+    "C16": meta("conductor+chaos", "runtime monitoring: sequential reference-model monitor over fill/drain histories (exact prediction of every answer) + controlled-scheduling stall verdict and capacity probe under contention",
+                "Randomised exploration: exact differential against a sequential model for single-threaded histories of any length; concurrent retry runs decided by the scheduler's stall verdict, conservation and a capacity probe.",
+                "DESIGN.md section 2, C16"),
+    "C20": meta("conductor", "runtime monitoring: serialized scheduler with a harness-controlled suspension of the async setter; stall (no-progress) verdict instead of time-outs; delivery oracle",
+                "Randomised exploration of serialized executions with one or two async sends held suspended; blocking of any other operation shows up as an exact stall state, not a time-out.",
+                "DESIGN.md section 2, C20"),
 }
